@@ -4,6 +4,7 @@ import (
 	"bytes"
 	"encoding/gob"
 	"fmt"
+	"strings"
 
 	"github.com/valyala/fastjson"
 )
@@ -86,6 +87,57 @@ func (l Link) IsCollection() bool {
 // GetID returns the ID corresponding to the Link object
 func (l Link) GetID() ID {
 	return l.ID
+}
+
+// Equals verifies if our receiver Link is equals with the "with" Link
+func (l Link) Equals(with Item) bool {
+	if IsNil(with) || !IsLink(with) {
+		return false
+	}
+	result := true
+	err := OnLink(with, func(w *Link) error {
+		if !l.ID.Equals(w.ID, true) || !strings.EqualFold(string(l.Type), string(w.Type)) {
+			result = false
+			return nil
+		}
+		if !l.Href.Equals(w.Href, false) {
+			result = false
+			return nil
+		}
+		if len(w.Rel) > 0 && !w.Rel.Equals(l.Rel, false) {
+			result = false
+			return nil
+		}
+		if len(w.MediaType) > 0 && w.MediaType != l.MediaType {
+			result = false
+			return nil
+		}
+		if len(w.HrefLang) > 0 && w.HrefLang != l.HrefLang {
+			result = false
+			return nil
+		}
+		if len(w.Name) > 0 && !w.Name.Equals(l.Name) {
+			result = false
+			return nil
+		}
+		if w.Height > 0 && w.Height != l.Height {
+			result = false
+			return nil
+		}
+		if w.Width > 0 && w.Width != l.Width {
+			result = false
+			return nil
+		}
+		if w.Preview != nil && !ItemsEqual(l.Preview, w.Preview) {
+			result = false
+			return nil
+		}
+		return nil
+	})
+	if err != nil {
+		return false
+	}
+	return result
 }
 
 // GetLink returns the IRI corresponding to the current Link
